@@ -267,6 +267,321 @@ fn lex_tables(repo: &str) -> R<String> {
     Ok(out)
 }
 
+
+// ---------------------------------------------------------------------------------------
+// RPC / codec / channel tables (server.rs, error.rs, io.rs, lsp-types METHOD constants)
+// ---------------------------------------------------------------------------------------
+
+fn lsp_methods(repo: &str) -> R<BTreeMap<String, String>> {
+    // version of lsp-types from the lock file, sources from the cargo registry
+    let lock = fs::read_to_string(format!("{}/Cargo.lock", repo)).map_err(|e| e.to_string())?;
+    let mut version = None;
+    let mut lines = lock.lines();
+    while let Some(l) = lines.next() {
+        if l.trim() == "name = \"lsp-types\"" {
+            if let Some(v) = lines.next() {
+                version = v.trim().strip_prefix("version = \"").and_then(|x| x.strip_suffix('"')).map(|x| x.to_string());
+            }
+        }
+    }
+    let version = version.ok_or("lsp-types not in Cargo.lock")?;
+    let home = std::env::var("CARGO_HOME").unwrap_or_else(|_| format!("{}/.cargo", std::env::var("HOME").unwrap_or_default()));
+    let mut out = BTreeMap::new();
+    let reg = format!("{}/registry/src", home);
+    for idx in fs::read_dir(&reg).map_err(|e| format!("{}: {}", reg, e))? {
+        let dir = idx.map_err(|e| e.to_string())?.path().join(format!("lsp-types-{}/src", version));
+        for f in ["request.rs", "notification.rs"] {
+            let path = dir.join(f);
+            if !path.exists() {
+                continue;
+            }
+            let file = parse_file(path.to_str().unwrap())?;
+            for item in &file.items {
+                if let Item::Impl(imp) = item {
+                    let ty = match &*imp.self_ty {
+                        syn::Type::Path(p) => p.path.segments.last().unwrap().ident.to_string(),
+                        _ => continue,
+                    };
+                    for it in &imp.items {
+                        if let ImplItem::Const(c) = it {
+                            if c.ident == "METHOD" {
+                                if let Expr::Lit(l) = &c.expr {
+                                    if let syn::Lit::Str(s) = &l.lit {
+                                        out.insert(ty.clone(), s.value());
+                                    }
+                                }
+                            }
+                        }
+                    }
+                }
+            }
+        }
+    }
+    if out.is_empty() {
+        return Err("no METHOD constants found in lsp-types".into());
+    }
+    Ok(out)
+}
+
+struct Collect {
+    error_codes: Vec<String>,
+    method_matches: Vec<syn::ExprMatch>,
+    channel_caps: Vec<u64>,
+}
+
+impl<'ast> syn::visit::Visit<'ast> for Collect {
+    fn visit_expr_path(&mut self, p: &'ast syn::ExprPath) {
+        let segs: Vec<String> = p.path.segments.iter().map(|s| s.ident.to_string()).collect();
+        if segs.len() == 2 && segs[0] == "ErrorCode" {
+            self.error_codes.push(segs[1].clone());
+        }
+        syn::visit::visit_expr_path(self, p);
+    }
+    fn visit_expr_match(&mut self, m: &'ast syn::ExprMatch) {
+        let scrut = quote::ToTokens::to_token_stream(&*m.expr).to_string().replace(' ', "");
+        if scrut.ends_with(".method.as_str()") {
+            self.method_matches.push(m.clone());
+        }
+        syn::visit::visit_expr_match(self, m);
+    }
+    fn visit_expr_call(&mut self, c: &'ast syn::ExprCall) {
+        let f = quote::ToTokens::to_token_stream(&*c.func).to_string().replace(' ', "");
+        if f == "mpsc::channel" {
+            if let Some(n) = c.args.first().and_then(lit_int) {
+                self.channel_caps.push(n);
+            }
+        }
+        syn::visit::visit_expr_call(self, c);
+    }
+}
+
+fn collect_fn(f: &syn::ItemFn) -> Collect {
+    let mut c = Collect { error_codes: vec![], method_matches: vec![], channel_caps: vec![] };
+    syn::visit::Visit::visit_item_fn(&mut c, f);
+    c
+}
+
+fn find_mod<'a>(file: &'a syn::File, name: &str) -> Option<&'a Vec<Item>> {
+    for item in &file.items {
+        if let Item::Mod(m) = item {
+            if m.ident == name {
+                return m.content.as_ref().map(|c| &c.1);
+            }
+        }
+    }
+    None
+}
+
+fn find_fn<'a>(items: &'a [Item], name: &str) -> Option<&'a syn::ItemFn> {
+    items.iter().find_map(|i| match i {
+        Item::Fn(f) if f.sig.ident == name => Some(f),
+        _ => None,
+    })
+}
+
+fn lean_str(s: &str) -> String {
+    format!("{:?}", s)
+}
+
+/// Method string of a match-arm pattern: `X::METHOD` or a string literal; None for a binding.
+fn arm_method(p: &Pat, methods: &BTreeMap<String, String>) -> R<Option<String>> {
+    match p {
+        Pat::Path(pp) => {
+            let segs: Vec<String> = pp.path.segments.iter().map(|s| s.ident.to_string()).collect();
+            if segs.len() == 2 && segs[1] == "METHOD" {
+                methods.get(&segs[0]).cloned().map(Some).ok_or(format!("unknown lsp-types method type {}", segs[0]))
+            } else {
+                Err("method arm: unrecognised path".into())
+            }
+        }
+        Pat::Lit(l) => match &l.lit {
+            syn::Lit::Str(s) => Ok(Some(s.value())),
+            _ => Err("method arm: literal".into()),
+        },
+        Pat::Ident(_) | Pat::Wild(_) => Ok(None),
+        _ => Err("method arm: unrecognised pattern".into()),
+    }
+}
+
+fn macros_in(e: &Expr) -> Vec<(String, Vec<String>)> {
+    struct M(Vec<(String, Vec<String>)>);
+    impl<'ast> syn::visit::Visit<'ast> for M {
+        fn visit_macro(&mut self, m: &'ast syn::Macro) {
+            let name = m.path.segments.last().unwrap().ident.to_string();
+            let args: Vec<String> = m
+                .parse_body_with(syn::punctuated::Punctuated::<Expr, syn::Token![,]>::parse_terminated)
+                .map(|p| p.iter().map(|e| quote::ToTokens::to_token_stream(e).to_string().replace(' ', "")).collect())
+                .unwrap_or_default();
+            self.0.push((name, args));
+        }
+    }
+    let mut m = M(vec![]);
+    syn::visit::Visit::visit_expr(&mut m, e);
+    m.0
+}
+
+fn rpc_tables(repo: &str) -> R<String> {
+    let methods = lsp_methods(repo)?;
+    let server = parse_file(&format!("{}/lsp4spl/src/server.rs", repo))?;
+    let error = parse_file(&format!("{}/lsp4spl/src/error.rs", repo))?;
+    let io = fs::read_to_string(format!("{}/lsp4spl/src/io.rs", repo)).map_err(|e| e.to_string())?;
+    // error codes
+    let mut codes: Vec<(String, i64)> = vec![];
+    for item in &error.items {
+        if let Item::Enum(e) = item {
+            if e.ident == "ErrorCode" {
+                for v in &e.variants {
+                    let d = v.discriminant.as_ref().ok_or("ErrorCode variant without discriminant")?;
+                    let txt = quote::ToTokens::to_token_stream(&d.1).to_string().replace(' ', "");
+                    let n: i64 = txt.parse().map_err(|_| format!("ErrorCode discriminant {}", txt))?;
+                    codes.push((v.ident.to_string(), n));
+                }
+            }
+        }
+    }
+    if codes.is_empty() {
+        return Err("ErrorCode enum not found".into());
+    }
+    let phases = find_mod(&server, "phases").ok_or("mod phases not found")?;
+    let f_init = find_fn(phases, "initialization").ok_or("fn initialization")?;
+    let f_main = find_fn(phases, "main").ok_or("fn main (phases)")?;
+    let f_shut = find_fn(phases, "shutdown").ok_or("fn shutdown")?;
+    let c_init = collect_fn(f_init);
+    let c_main = collect_fn(f_main);
+    let c_shut = collect_fn(f_shut);
+    if c_init.error_codes.len() != 3 {
+        return Err(format!("initialization: expected 3 ErrorCode uses, found {:?}", c_init.error_codes));
+    }
+    if c_shut.error_codes.len() != 1 {
+        return Err(format!("shutdown: expected 1 ErrorCode use, found {:?}", c_shut.error_codes));
+    }
+    if c_main.method_matches.len() != 2 {
+        return Err(format!("main: expected 2 method matches, found {}", c_main.method_matches.len()));
+    }
+    // main: request arms
+    let mut req_arms: Vec<(String, String)> = vec![];
+    let mut req_default: Option<String> = None;
+    for arm in &c_main.method_matches[0].arms {
+        let is_cfg_verif = arm.attrs.iter().any(|a| quote::ToTokens::to_token_stream(a).to_string().contains("verif"));
+        let body_txt = quote::ToTokens::to_token_stream(&*arm.body).to_string();
+        let macs = macros_in(&arm.body);
+        let mut sub = Collect { error_codes: vec![], method_matches: vec![], channel_caps: vec![] };
+        syn::visit::Visit::visit_expr(&mut sub, &arm.body);
+        let action = if let Some(code) = sub.error_codes.first() {
+            format!(".error .{}", code)
+        } else if let Some((_, args)) = macs.iter().find(|(n, _)| n == "respond") {
+            let path = args.get(1).ok_or("respond! without handler")?;
+            format!(".feature {}", lean_str(path))
+        } else if body_txt.contains("return Ok") {
+            ".shutdown".to_string()
+        } else {
+            return Err("main request arm: unrecognised action".into());
+        };
+        match arm_method(&arm.pat, &methods)? {
+            Some(m) => {
+                if !is_cfg_verif {
+                    req_arms.push((m, action))
+                }
+            }
+            None => req_default = Some(action),
+        }
+    }
+    let req_default = req_default.ok_or("main request match has no default arm")?;
+    // main: notification arms
+    let mut note_arms: Vec<(String, String)> = vec![];
+    for arm in &c_main.method_matches[1].arms {
+        let body_txt = quote::ToTokens::to_token_stream(&*arm.body).to_string();
+        let macs = macros_in(&arm.body);
+        let action = if let Some((_, args)) = macs.iter().find(|(n, _)| n == "note") {
+            let path = args.get(1).ok_or("note! without handler")?;
+            format!(".doc {}", lean_str(path))
+        } else if body_txt.contains("Exit") || body_txt.contains("exit") {
+            ".exit".to_string()
+        } else if body_txt.replace(' ', "") == "{}" {
+            ".drop".to_string()
+        } else {
+            return Err(format!("main notification arm: unrecognised action {}", body_txt));
+        };
+        match arm_method(&arm.pat, &methods)? {
+            Some(m) => note_arms.push((m, action)),
+            None => {
+                if action != ".drop" {
+                    return Err("main notification default arm is not a drop".into());
+                }
+            }
+        }
+    }
+    // run(): channel capacities
+    let mut caps = vec![];
+    for item in &server.items {
+        if let Item::Impl(imp) = item {
+            for it in &imp.items {
+                if let ImplItem::Fn(f) = it {
+                    if f.sig.ident == "run" {
+                        let mut c = Collect { error_codes: vec![], method_matches: vec![], channel_caps: vec![] };
+                        syn::visit::Visit::visit_impl_item_fn(&mut c, f);
+                        caps = c.channel_caps;
+                    }
+                }
+            }
+        }
+    }
+    if caps.len() != 2 {
+        return Err(format!("run(): expected 2 mpsc::channel(N), found {:?}", caps));
+    }
+    // codec constants (textual, io.rs)
+    let min_len = io
+        .split("src.len() <")
+        .nth(1)
+        .and_then(|r| r.trim_start().split(|c: char| !c.is_ascii_digit()).next())
+        .and_then(|d| d.parse::<u64>().ok())
+        .ok_or("io.rs: minimum length guard not found")?;
+    let header_name = io
+        .split("header.name ==")
+        .nth(1)
+        .and_then(|r| r.split('"').nth(1))
+        .ok_or("io.rs: header name comparison not found")?
+        .to_string();
+    let header_slots = io
+        .split("httparse::EMPTY_HEADER;")
+        .nth(1)
+        .and_then(|r| r.trim_start().split(|c: char| !c.is_ascii_digit()).next())
+        .and_then(|d| d.parse::<u64>().ok())
+        .ok_or("io.rs: header array size not found")?;
+    let enc_fmt = io
+        .split("let encoded = format!(")
+        .nth(1)
+        .and_then(|r| r.split('"').nth(1))
+        .ok_or("io.rs: encode format string not found")?
+        .to_string();
+
+    let mut out = String::new();
+    out.push_str("-- GENERATED by /verif/harness `extract` from /repo/lsp4spl/src/{server,error,io}.rs — do not edit.\n");
+    out.push_str("import SplVerif.Model.RpcTypes\nnamespace Spl.Gen\n\n");
+    out.push_str("def errorCode : ErrCode → Int\n");
+    for (n, v) in &codes {
+        writeln!(out, "  | .{} => {}", n, if *v < 0 { format!("({})", v) } else { v.to_string() }).unwrap();
+    }
+    writeln!(out, "\n/-- first loop of `initialization`: request other than `initialize` -/\ndef preInitOther : ErrCode := .{}", c_init.error_codes[0]).unwrap();
+    writeln!(out, "/-- second loop of `initialization`: repeated `initialize` / any other request -/\ndef handshakeInitialize : ErrCode := .{}", c_init.error_codes[1]).unwrap();
+    writeln!(out, "def handshakeOther : ErrCode := .{}", c_init.error_codes[2]).unwrap();
+    writeln!(out, "/-- `shutdown` phase: every request -/\ndef shutdownRequest : ErrCode := .{}\n", c_shut.error_codes[0]).unwrap();
+    out.push_str("def mainRequests : List (String × ReqAction) := [\n");
+    out.push_str(&req_arms.iter().map(|(m, a)| format!("  ({}, {})", lean_str(m), a)).collect::<Vec<_>>().join(",\n"));
+    out.push_str("]\n\n");
+    writeln!(out, "def mainRequestDefault : ReqAction := {}\n", req_default).unwrap();
+    out.push_str("def mainNotifications : List (String × NoteAction) := [\n");
+    out.push_str(&note_arms.iter().map(|(m, a)| format!("  ({}, {})", lean_str(m), a)).collect::<Vec<_>>().join(",\n"));
+    out.push_str("]\n\n");
+    writeln!(out, "def initializeMethod : String := {}", lean_str(methods.get("Initialize").ok_or("Initialize")?)).unwrap();
+    writeln!(out, "def initializedMethod : String := {}", lean_str(methods.get("Initialized").ok_or("Initialized")?)).unwrap();
+    writeln!(out, "def exitMethod : String := {}\n", lean_str(methods.get("Exit").ok_or("Exit")?)).unwrap();
+    writeln!(out, "def ioChanCap : Nat := {}\ndef docChanCap : Nat := {}\n", caps[0], caps[1]).unwrap();
+    writeln!(out, "def codecMinLen : Nat := {}\ndef headerName : String := {}\ndef headerSlots : Nat := {}\ndef encodeFormat : String := {}", min_len, lean_str(&header_name), header_slots, format!("\"{}\"", enc_fmt)).unwrap();
+    out.push_str("\nend Spl.Gen\n");
+    Ok(out)
+}
+
 fn write_if_changed(path: &str, content: &str) {
     if fs::read_to_string(path).map(|old| old == content).unwrap_or(false) {
         return;
@@ -279,7 +594,7 @@ fn main() {
     let repo = args.get(1).map(|s| s.as_str()).unwrap_or("/repo");
     let out_dir = args.get(2).map(|s| s.as_str()).unwrap_or("/verif/lean/SplVerif/Gen");
     let mut failed = false;
-    let tables: Vec<(&str, fn(&str) -> R<String>)> = vec![("LexTables", lex_tables)];
+    let tables: Vec<(&str, fn(&str) -> R<String>)> = vec![("LexTables", lex_tables), ("RpcTables", rpc_tables)];
     for (name, f) in tables {
         match f(repo) {
             Ok(content) => write_if_changed(&format!("{}/{}.lean", out_dir, name), &content),
